@@ -284,7 +284,8 @@ impl Prop for C28 {
             );
             // ---- fully random
             {
-                let m = rng.range(0, if rng.chance(1, 20) { 70 } else { 8 });
+                let mmax = if rng.chance(1, 20) { 70 } else { 8 };
+                let m = rng.range(0, mmax);
                 let it: Vec<String> = (0..m)
                     .map(|_| {
                         let id = match rng.below(8) {
@@ -298,7 +299,8 @@ impl Prop for C28 {
                         self.item(st, id)
                     })
                     .collect();
-                let origin = *rng.pick(&[0u64, 1, 2, 3, u64::MAX, u64::MAX - 1, rng.range(1, 12)]);
+                let ro = rng.range(1, 12);
+                let origin = *rng.pick(&[0u64, 1, 2, 3, u64::MAX, u64::MAX - 1, ro]);
                 out.op(mk(origin, rng.range(0, 9), it), "random", m > 0);
             }
         }
